@@ -172,6 +172,8 @@ func (st *Store) SetPendingAmount(addr keys.Address, height int64, coin *balance
 //iterate addresses for height
 func (st *Store) IteratePendingAmounts(height int64, fn func(addr *keys.Address, coin *balance.Coin) bool) bool {
 	prefix := append(st.buildPendingKey(), strconv.FormatInt(height, 10)...)
+	// close the height with the separator: without it the prefix of height 3 also matches 30, 31, ...
+	prefix = append(prefix, storage.DB_PREFIX...)
 	return st.iterateAddresses(prefix, func(addr *keys.Address, coin *balance.Coin) bool {
 		return fn(addr, coin)
 	})
